@@ -18,7 +18,7 @@ function below mirrors one function of the Rust code:
 | `upd`                | `MemoInner::update_if_necessary`: `needs_update`; `value.take()`; `clear_sources`; run under `with_observer`; store; `state = Clean`; if changed mark every subscriber Dirty **except the current observer** |
 | `readNode`           | `Read::try_read` = `track()` then `try_read_untracked()` (= `update_if_necessary()` + read the value) |
 | `Expr.rd false`      | `untrack(..)` = `Observer::take()` for the duration of the read |
-| `effUpdate`          | `EffectInner::update_if_necessary` (`dirty` flag, then `any` over a snapshot of the sources) |
+| `effUpdate`          | `EffectInner::update_if_necessary` (`dirty` flag; else `any` over a snapshot of the sources under `untrack`, then `take(dirty)`) |
 | `pollEff`            | one poll of the task spawned by `Effect::new` (effect/effect.rs): `while rx.next().await.is_some() { if with_observer(update_if_necessary) || first_run { clear_sources; run under with_observer } }`; `Receiver::poll_next` = `register; set.swap(false)` |
 | `setSignal`          | `Set::set` on a signal = store + `mark_dirty` (always notifies, equal value or not) |
 
@@ -242,10 +242,17 @@ def upd (p : Prog) : Nat → State → Nat → State × Bool
     else
       (s.upd id fun n => { n with st := .clean }, false)
 
-/-- `EffectInner::update_if_necessary` -/
+/-- `EffectInner::update_if_necessary` (after the repair `fix: effects can miss an update or run twice …`):
+the sources are walked under `untrack` (no observer), then the `dirty` flag is folded into the answer and
+cleared.  The code before the repair is `effUpdateOld` in `Model/ReactiveOld.lean`. -/
 def effUpdate (p : Prog) (f : Nat) (s : State) (id : Nat) : State × Bool :=
   if (s.get id).dirty then (s.upd id fun n => { n with dirty := false }, true)
-  else anySrc (upd p f) false id (s.get id).sources s
+  else
+    let saved := s.obs
+    let (s, any) := anySrc (upd p f) false id (s.get id).sources { s with obs := none }
+    let s := { s with obs := saved }
+    let was := (s.get id).dirty
+    (s.upd id fun n => { n with dirty := false }, any || was)
 
 /-- the body of the effect task's `while` loop, repeated while the channel is set -/
 def effLoop (p : Prog) (f : Nat) : Nat → State → Nat → State
